@@ -352,7 +352,23 @@ func c08(e *Env) {
 		if len(bf.Raw) > 4 && bf.Raw[4] == byte(primitive.OpCodePrepare) {
 			kind = "re-prepare"
 		}
-		w.Violate("c08-badframe", kind+"-not-decodable-on-target-connection",
+		// The known finding (known_findings.json) is precisely this: a PREPARE frame that is well-formed
+		// for the session of the client that prepared the statement - compressed with that session's
+		// codec - replayed on a connection that negotiated another codec or none. A replayed frame that
+		// is well-formed under no codec at all is something else.
+		sig := kind + "-not-decodable-on-target-connection"
+		if kind == "re-prepare" {
+			foreign := false
+			for _, comp := range []string{"", "lz4", "snappy"} {
+				if comp != bf.Conn.Compression && world.DecodesUnder(comp, bf.Raw) {
+					foreign = true
+				}
+			}
+			if !foreign {
+				sig = "re-prepare-malformed-under-every-codec"
+			}
+		}
+		w.Violate("c08-badframe", sig,
 			fmt.Sprintf("backend connection %s (compression %q, version %s) received a %s frame it cannot decode: %s; header % x", bf.Conn, bf.Conn.Compression, versionOf(bf.Conn), kind, bf.Err, bf.Raw[:min(9, len(bf.Raw))]))
 		return
 	}
